@@ -165,6 +165,17 @@ def make_source(spec, spelling):
             body += ['class K: pass', f"__rec__.probe('after', __m, K, __self)"]
         else:
             body += [f"__rec__.probe('after', __m, {kexpr}, __self)"]
+    elif placement == 'method_in_function' and target == 'attr_shadows_local':
+        # a class declared in a function: a name that is both a class variable of the class and a local of the function means the
+        # class variable (the class body is the innermost scope)
+        mdeco = ['@beartype'] if spec.get('decor') == 'function' else []
+        cdeco = ['@beartype'] if spec.get('decor') == 'class' else []
+        inner = ['class Other: pass', 'K = Other'] + cdeco + ['class B:', '    class K: pass'] + indent(mdeco, 1) + \
+            [f'    def meth(self, x: {ann}) -> {ann}: return x', "__rec__.probe('after_alive', B.meth, B.K, B())", 'return B']
+        lines = [f'def outer{depth}():'] + indent(inner, 1)
+        for d in range(depth - 1, 0, -1):
+            lines = [f'def outer{d}():'] + indent(lines + [f'return outer{d + 1}()'], 1)
+        body += lines + ['B_ = outer1()', "__rec__.probe('after_returned', B_.meth, B_.K, B_())"]
     elif placement == 'method_in_function':
         # two classes decorated inside one function; the first has a class variable called K bound to another class: it must not be
         # what 'K' means in the second class (Python binds K there to the module global)
